@@ -42,4 +42,19 @@ TokenOk(d, n, tok) ==
   IF HasDollar(n) /\ d # "ansi" /\ ~tok.quoted /\ n.cps[1] # 36 THEN TRUE
   ELSE /\ tok.found /\ tok.value = n.s
        /\ NeedQuote(n) => (tok.quoted /\ QuoteOk(d, tok.q))
+\* ---- the statement printer of the default options (format = true; see Literal.tla): quoted identifiers ----
+\* Transcribed from sqlformat 0.3.5 (get_string_token): "..." ends at the first quote that is not consumed as the second half
+\* of a pair "" or \" ; `...` knows the pair `` only, [...] the pair ]] only.  The printer keeps an identifier iff its lexer
+\* finds the end where the emission (quote, name with the closing quote doubled, quote) put it.
+RECURSIVE LexPrinterQ(_, _, _)
+LexPrinterQ(txt, q, escs) ==      \* txt: after the opening quote; TRUE iff the token ends with the text
+  IF txt = <<>> THEN FALSE
+  ELSE IF Head(txt) \in escs /\ Len(txt) >= 2 /\ txt[2] = q THEN LexPrinterQ(SubSeq(txt, 3, Len(txt)), q, escs)
+  ELSE IF Head(txt) = q THEN Tail(txt) = <<>>
+  ELSE LexPrinterQ(Tail(txt), q, escs)
+RECURSIVE DoubledQ(_, _)
+DoubledQ(v, q) == IF v = <<>> THEN <<>> ELSE (IF Head(v) = q THEN <<q, q>> ELSE << Head(v) >>) \o DoubledQ(Tail(v), q)
+PrinterKeepsIdent(n, q) ==
+  LET close == IF q = 91 THEN 93 ELSE q
+  IN LexPrinterQ(DoubledQ(n.cps, close) \o << close >>, close, IF q = 34 THEN {34, 92} ELSE {close})
 =======================================================================
